@@ -703,6 +703,25 @@ pub fn run(which: Which, tier: &str, seed: u64, out: &str) {
         }
         coverage.put("closures", J::Arr(cl));
     }
+    if which == Which::C02 && !rep.saturated() {
+        let mut sroots: Vec<roots::Root> = Vec::new();
+        for r in roots.iter().chain(extreme.iter()) {
+            sroots.push(roots::Root { name: r.name.clone(), pos: r.pos.clone() });
+        }
+        search_successor_part(&rep, &sroots, thorough);
+        let nm = SEARCH_NODES_CHECKED.load(std::sync::atomic::Ordering::Relaxed);
+        let nq = SEARCH_QNODES_CHECKED.load(std::sync::atomic::Ordering::Relaxed);
+        total_transitions += nm + nq;
+        eprintln!("[C02] positions created by the search itself: {} starts, {} main-search steps, {} quiescence steps ({:.1}s)", SEARCH_STARTS.load(std::sync::atomic::Ordering::Relaxed), nm, nq, rep.elapsed());
+        coverage.put(
+            "positions_created_by_the_search",
+            J::obj()
+                .set("start_states", SEARCH_STARTS.load(std::sync::atomic::Ordering::Relaxed))
+                .set("main_search_steps_checked", nm)
+                .set("quiescence_steps_checked", nq)
+                .set("rule", "a real search (iterative deepening to depth 3, thorough 4, node-capped) of every state within one ply of the roots and the extreme roots, with the node traces on: every position the main search visits must be the result of a legal move in the position it was reached from (set membership in the model's successors), every position the quiescence search enters must be the model's successor for the move it just played; a board that is no chess position at all is reported as such"),
+        );
+    }
 
     // ---- C17(b): the move list the real quiescence search uses at every node it reaches
     if which == Which::C17 && !rep.saturated() {
@@ -769,6 +788,182 @@ pub fn run(which: Which, tier: &str, seed: u64, out: &str) {
         ],
         out,
     );
+}
+
+// ---------------------------------------------------------------------------------------------
+// C02, the positions the search itself creates. The exploration above walks the graph through
+// clone_with_move; a search may apply moves its own way (make / unmake on a scratch board, a
+// short cut for captures). Every position a real search visits -- main search and quiescence --
+// must be the successor the rules prescribe of the position it was reached from.
+
+pub static SEARCH_NODES_CHECKED: std::sync::atomic::AtomicU64 = std::sync::atomic::AtomicU64::new(0);
+pub static SEARCH_QNODES_CHECKED: std::sync::atomic::AtomicU64 = std::sync::atomic::AtomicU64::new(0);
+pub static SEARCH_STARTS: std::sync::atomic::AtomicU64 = std::sync::atomic::AtomicU64::new(0);
+
+/// One traced search of `b` (iterative deepening to `depth`, node cap): problems found, as text.
+pub fn search_successor_problems(s: &mut crate::search::Searcher, b: &Board, depth: u8, cap: u64) -> Result<(u64, u64, Vec<String>), String> {
+    use std::collections::HashSet;
+    crate::timer::verif::set_node_clock(Some(1));
+    crate::search::verif::set_repetition_trace(true);
+    crate::search::verif::set_quiescence_trace(true);
+    let r = guard(|| s.find_best_move(b, depth, Some(std::time::Duration::from_millis(cap))));
+    let nodes = crate::search::verif::take_repetition_trace();
+    let qtrace = crate::search::verif::take_quiescence_trace();
+    let qevents = crate::search::verif::take_quiescence_events();
+    crate::search::verif::set_repetition_trace(false);
+    crate::search::verif::set_quiescence_trace(false);
+    if let Err(e) = r {
+        return Err(e);
+    }
+    let mut problems = Vec::new();
+    // main search: depth-first order, a node at ply p was reached from the latest node at ply p-1
+    let mut stack: Vec<(Board, Option<HashSet<eng::EKey>>)> = Vec::new();
+    let mut n_main = 0u64;
+    for (nb, ply, _) in &nodes {
+        let ply = *ply as usize;
+        if ply > stack.len() {
+            break; // the trace does not nest as expected (hooks moved): not judged
+        }
+        stack.truncate(ply);
+        if ply > 0 {
+            let parent = &mut stack[ply - 1];
+            if parent.1.is_none() {
+                parent.1 = Some(match eng::pos_of(&parent.0) {
+                    Ok(pp) => pp.legal_moves().iter().map(|m| eng::key_of_pos(&pp.make(*m))).collect(),
+                    Err(_) => HashSet::new(),
+                });
+            }
+            n_main += 1;
+            if !parent.1.as_ref().unwrap().contains(&eng::key_of(nb)) && problems.len() < 3 {
+                problems.push(format!(
+                    "the main search went from {:?} (ply {}) to {:?}, which is not the result of any legal move there{}",
+                    eng::fen_of(&parent.0),
+                    ply - 1,
+                    eng::describe_key(&eng::key_of(nb)),
+                    if eng::pos_of(nb).is_err() { " and is no chess position at all (a square holding two men, or a colour without its piece)" } else { "" }
+                ));
+            }
+        }
+        stack.push((*nb, None));
+    }
+    // quiescence: a node that searched move m entered the child next
+    let mut qstack: Vec<usize> = Vec::new();
+    let mut next = 0usize;
+    let mut pending: Option<(usize, crate::moves::Move)> = None;
+    let mut n_q = 0u64;
+    for (kind, mv) in &qevents {
+        if *kind == crate::search::verif::Q_ENTER {
+            if next >= qtrace.len() {
+                break;
+            }
+            if let Some((pi, m)) = pending.take() {
+                n_q += 1;
+                let child = &qtrace[next].0;
+                let want = eng::pos_of(&qtrace[pi].0).ok().map(|pp| pp.make(eng::mv_of(&m)));
+                let ok = match &want {
+                    Some(w) => eng::key_of_pos(w) == eng::key_of(child),
+                    None => false,
+                };
+                if !ok && problems.len() < 3 {
+                    problems.push(format!(
+                        "the quiescence search played {} in {:?} and went on with {:?}; the rules give {:?}",
+                        eng::mv_of(&m).uci(),
+                        eng::fen_of(&qtrace[pi].0),
+                        eng::describe_key(&eng::key_of(child)),
+                        want.map(|w| w.fen4()).unwrap_or_else(|| "(the node's own board is no chess position)".into())
+                    ));
+                }
+            }
+            qstack.push(next);
+            next += 1;
+        } else if *kind == crate::search::verif::Q_EXAMINE {
+            match (qstack.last(), mv) {
+                (Some(top), Some(m)) => pending = Some((*top, *m)),
+                _ => break,
+            }
+        } else {
+            pending = None;
+            if qstack.pop().is_none() {
+                break;
+            }
+        }
+    }
+    Ok((n_main, n_q, problems))
+}
+
+fn search_successor_part(rep: &Report, roots: &[roots::Root], thorough: bool) {
+    use crate::search::Searcher;
+    use std::collections::HashSet;
+    use std::sync::atomic::Ordering;
+    let mg = crate::eng::tl_mg();
+    let mut starts: Vec<Board> = Vec::new();
+    let mut seen = HashSet::new();
+    for r in roots {
+        for b in crate::props::c05::neighbourhood(mg, rep, &r.pos.fen(0, 1), 1) {
+            if seen.insert(eng::key_of(&b)) {
+                starts.push(b);
+            }
+        }
+    }
+    let depth: u8 = if thorough { 4 } else { 3 };
+    let cap: u64 = if thorough { 20_000 } else { 4_000 };
+    SEARCH_STARTS.store(starts.len() as u64, Ordering::Relaxed);
+    crate::par::par_map_init(
+        &starts,
+        || None::<Searcher>,
+        |s, b| {
+            if rep.saturated() {
+                return;
+            }
+            if s.is_none() {
+                *s = Some(Searcher::new());
+            }
+            let args = vec!["c02-search-one".to_string(), "--fen".into(), eng::fen_of(b), "--depth".into(), depth.to_string(), "--cap".into(), cap.to_string()];
+            crate::crumb::set_owned(&args);
+            match search_successor_problems(s.as_mut().unwrap(), b, depth, cap) {
+                Err(e) => {
+                    *s = None;
+                    rep.violation(format!("C02 search fen={} panic", eng::fen_of(b)), format!("search of {:?} to depth {}: {}", eng::fen_of(b), depth, e), args, J::Null);
+                }
+                Ok((n_main, n_q, problems)) => {
+                    SEARCH_NODES_CHECKED.fetch_add(n_main, Ordering::Relaxed);
+                    SEARCH_QNODES_CHECKED.fetch_add(n_q, Ordering::Relaxed);
+                    if let Some(t) = problems.into_iter().next() {
+                        // the search may have left its own state inconsistent: a new searcher next
+                        *s = None;
+                        rep.violation(format!("C02 search fen={} successor", eng::fen_of(b)), format!("search of {:?} to depth {} (node cap {}): {}", eng::fen_of(b), depth, cap, t), args, J::Null);
+                    }
+                }
+            }
+        },
+    );
+}
+
+/// Replay: the same traced search on a fresh searcher.
+pub fn replay_search_one(fen: &str, depth: u8, cap: u64) -> i32 {
+    let b = match eng::board_of_fen(fen) {
+        Ok(b) => b,
+        Err(e) => {
+            println!("REPLAY-ERROR bad fen {:?}: {}", fen, e);
+            return 2;
+        }
+    };
+    let mut s = crate::search::Searcher::new();
+    match search_successor_problems(&mut s, &b, depth, cap) {
+        Err(e) => {
+            println!("REPLAY-VIOLATION C02 search fen={} panic :: {}", fen, e);
+            1
+        }
+        Ok((_, _, problems)) => {
+            if let Some(t) = problems.first() {
+                println!("REPLAY-VIOLATION C02 search fen={} successor :: {}", fen, t);
+                1
+            } else {
+                println!("REPLAY-OK C02 every position the search of {} visits is the prescribed successor", fen);
+                0
+            }
+        }
+    }
 }
 
 /// Replay of one state: re-executes the oracle on a single FEN and prints what it sees.
